@@ -101,7 +101,7 @@ Definition cgroup (checked : bool) (na nr : nat) (g : list cev) (acc : list cpat
   let step1 (a : list cpath * list N * bool) (p : cpath) :=
     let '(ps', cv, o) := a in
     let c := fold_left app_cev g (snd p) in
-    let x := c_explore checked na nr 4000 [c] (mkCX [] trie0 cv false) in
+    let x := c_explore checked na nr texplore_fuel [c] (mkCX [] trie0 cv false) in
     (map (fun f => (c_mask na nr f :: fst p, f)) (cx_finals x) ++ ps', cx_cov x, o || cx_out x) in
   let '(ps2, cv2, o2) := fold_left step1 paths ([], cov, out) in
   (cdedupe na nr ps2 [], cv2, o2).
@@ -133,7 +133,7 @@ Definition ggroup (fixed : bool) (nw : nat) (g : list gev) (acc : list gpath * l
     if gbad (snd p) then (p :: ps', cv, o)
     else
       let s := fold_left app_gev g (snd p) in
-      let x := g_explore fixed nw 4000 [s] (mkGX [] trie0 cv false) in
+      let x := g_explore fixed nw texplore_fuel [s] (mkGX [] trie0 cv false) in
       (map (fun f => (g_mask nw f :: fst p, f)) (gx_finals x) ++ ps', gx_cov x, o || gx_out x) in
   let '(ps2, cv2, o2) := fold_left step1 paths ([], cov, out) in
   (gdedupe nw ps2 [], cv2, o2).
